@@ -959,6 +959,12 @@ class Interp:
             seq = v
             if not isinstance(seq, (tuple, list)):
                 seq = self.models.concrete_iter(self, v, t)
+                if seq is None and isinstance(v, (SBytes, SList)) and not any(isinstance(x, ast.Starred) for x in t.elts):
+                    # unpacking a sequence of unknown length into k targets: ValueError unless it has k elements
+                    k = len(t.elts)
+                    if not self.ctx.branch(to_int(v.n) == k):
+                        raise PyExc('ValueError', getattr(t, 'lineno', None), 'wrong number of values to unpack')
+                    seq = [v.at(i) if isinstance(v, SBytes) else v.elem(i) for i in range(k)]
                 if seq is None:
                     raise Unsupported('unpacking a symbolic-length value')
             if len(seq) != len(t.elts):
